@@ -7,7 +7,7 @@ from engine import facts as F
 from engine.core import Ctx
 ctx = Ctx("quick")
 names = set()
-for cfg in ("build",):
+for cfg in sorted(F.CONFIGS):
     facts = F.extract(tuple(sorted(F.UNITS)), cfg, F.REPO, ctx.db())
     for u, f in facts.items():
         for fd in f["functions"]:
